@@ -162,11 +162,7 @@ def firstCheck (G : Grammar) (k : Nat) (implProds : List TSet) (implNts : Env) :
       | none => "ok"
 
 /-- Per-instance check that the faithful seeded iteration ends in the reference lfp. -/
-def seededAgreesWithLfp (G : Grammar) (k fuel : Nat) : Option Bool :=
-  (firstCode G fuel k).bind fun V =>
-    (firstK_lfp G k fuel).map fun E =>
-      listSame V.prods (G.prods.map fun p => firstSeqRef k (envGet E) p.rhs) && envSame V.nts E
-        && V.nts.map (·.1) == E.map (·.1)
+def seededAgreesWithLfp (G : Grammar) (k fuel : Nat) : Option Bool := seededAgrees G k fuel
 
 /-- FOLLOW oracle. For k = 0 the code's FOLLOW set of the start symbol contains the one-token
     tuple `[0]` (built by `KTuplesBuilder::end()`, which does not truncate) where the definition
